@@ -294,9 +294,9 @@ func RunC14(tier string, args []string) int {
 	maxStates := 60000
 	deadline := time.Now().Add(100 * time.Second)
 	if tier == "thorough" {
-		depth = 7
-		maxStates = 2000000
-		deadline = time.Now().Add(25 * time.Minute)
+		depth = 8
+		maxStates = 4000000
+		deadline = time.Now().Add(60 * time.Minute)
 	}
 	cfgs := []c14Cfg{{0, "absent"}, {10 * time.Minute, "absent"}, {10 * time.Minute, "past"}, {0, "+1h"}, {10 * time.Minute, "+1h"}, {0, "past"}}
 	total := fw.HStats{}
